@@ -157,12 +157,21 @@ def attribute(it, base, name, fr, node):
         return {"start": base.lo, "stop": base.hi, "step": base.step}.get(name) or VNone()
     if isinstance(base, VOpaque):
         return VBound(base, name)
+    if isinstance(base, VObj):
+        if name in base.attrs:
+            return base.attrs[name]
+        if it.model.functions.get(f"{base.cls}.{name}") is not None:
+            return VBound(base, name)
+        raise TypeViolation(f"attribute `{name}` is read on an instance of {base.cls.rsplit('.', 1)[-1]} on a path on which "
+                            f"its constructor did not assign it (AttributeError at run time)")
     raise Unmodelled(f"attribute {name} of {type(base).__name__}")
 
 
 # --------------------------------------------------------------------------- subscripts
 
 def subscript(it, base, idx, fr, node):
+    if getattr(it, "lenient", False) and isinstance(base, VOpaque):
+        return VOpaque("untyped-element")
     if isinstance(base, VSeq):
         if isinstance(idx, VInt):
             p = it.facts.norm(idx.p)
@@ -471,6 +480,20 @@ def method(it, base, name, args, kwargs, fr, node):
         if name in ("item", "cpu", "numpy", "to", "clone", "detach"):
             return base
         raise Unmodelled(f"scalar.{name}")
+    if isinstance(base, VObj):
+        if name in base.attrs:
+            c = base.attrs[name]
+            if isinstance(c, VContraction):
+                ops = [a.dense() for a in args]
+                return VTensor(net.einsum(it.sp, c.spec, ops), args[0].dtype if isinstance(args[0], VTensor) else "?")
+            raise Unmodelled(f"call of attribute {name}")
+        f = it.model.functions.get(f"{base.cls}.{name}")
+        if f is None:
+            raise TypeViolation(f"{base.cls.rsplit('.', 1)[-1]} has no method `{name}`")
+        hook = it.hooks.get(("function", f"{base.cls}.{name}"))
+        if hook is not None:
+            return hook(it, [base] + list(args), kwargs, fr, node)
+        return it.call_function(f, args, kwargs, recv=base)
     if isinstance(base, VOpaque):
         if name in ("count",) and base.tag.startswith("index"):
             return VInt(P.atom(f"count({base.tag})"))
@@ -668,6 +691,9 @@ def isinstance_check(it, v, t) -> VBool:
     return VBool(False)
 
 
+PLAIN_CLASSES = {"torchtt.solvers._LinearOp", "torchtt._division.LinearOp"}
+
+
 def function(it, dotted, args, kwargs, fr, node):
     sp = it.sp
     model = it.model
@@ -678,6 +704,12 @@ def function(it, dotted, args, kwargs, fr, node):
             return construct_tt(it, args, kwargs, node)
         if short in EXC_NAMES or dotted.startswith("torchtt.errors"):
             return VOpaque("exception:" + short)
+        if dotted in PLAIN_CLASSES:
+            obj = VObj(dotted)
+            init = model.functions.get(dotted + ".__init__")
+            if init is not None:
+                it.call_function(init, args, kwargs, recv=obj)
+            return obj
         raise Unmodelled(f"instantiation of {dotted}")
     if dotted in model.functions:
         hook = it.hooks.get(("function", dotted))
@@ -938,6 +970,35 @@ def torch_function(it, dotted, last, args, kwargs, node):
             raise Unmodelled("einsum with non-literal subscripts")
         ops = [a.dense() for a in args[1:]]
         return VTensor(net.einsum(sp, spec.s, ops), args[1].dtype if isinstance(args[1], VTensor) else "?")
+    if last == "contract_expression":
+        if not isinstance(args[0], VStr):
+            raise Unmodelled("contract_expression with non-literal subscripts")
+        nsub = len(args[0].s.split("->")[0].split(","))
+        if nsub != len(args) - 1:
+            raise TypeViolation(f"contract_expression '{args[0].s}' has {nsub} subscripts for {len(args) - 1} shapes")
+        for sub, shp in zip(args[0].s.replace(" ", "").split("->")[0].split(","), args[1:]):
+            n = len(shp.items) if isinstance(shp, (VTuple, VList)) else None
+            if n is not None and n != len(sub):
+                raise TypeViolation(f"contract_expression '{args[0].s}': subscript '{sub}' has {len(sub)} letters for a shape with {n} axes")
+        return VContraction(args[0].s, len(args) - 1)
+    if last == "inv" and isinstance(args[0], VTensor):
+        d = args[0].dense()
+        if d.ndim() < 2:
+            raise TypeViolation("inverse of a tensor with fewer than two axes")
+        if not it.facts.eq(d.axis_size(d.ndim() - 1), d.axis_size(d.ndim() - 2)):
+            raise TypeViolation(f"inverse of non-square trailing matrices ({d.axis_size(d.ndim() - 2)!r} x {d.axis_size(d.ndim() - 1)!r})")
+        return VTensor(net.inv_atom(sp, d), args[0].dtype)
+    if last == "solve" and dotted.endswith("linalg.solve") and isinstance(args[0], VTensor) and isinstance(args[1], VTensor):
+        a, b = args[0].dense(), args[1].dense()
+        if a.ndim() != 2 or b.ndim() != 2 or len(a.terms) != 1:
+            raise Unmodelled("linalg.solve of non-matrices")
+        # A x = b: rows of A are identified with the rows of b; the solution has the column structure of A
+        net.einsum(sp, "ij,ik->jk", [a, b])
+        cols = Dense(sp, [Term(COEF1, a.terms[0].atoms, [a.terms[0].out[1]])])
+        xa = net._fn_atom(sp, "solve-cols", cols)
+        rhs_cols = Dense(sp, [Term(COEF1, b.terms[0].atoms, [b.terms[0].out[1]])]) if b.terms else None
+        x = net.einsum(sp, "j,k->jk", [xa, net.ones_tensor(sp, [b.axis_size(1)])])
+        return VTensor(x, args[0].dtype)
     if last == "tensordot":
         dims = kwargs.get("dims", args[2] if len(args) > 2 else None)
         if not isinstance(dims, (VTuple, VList)) or len(dims.items) != 2:
@@ -952,6 +1013,12 @@ def torch_function(it, dotted, last, args, kwargs, node):
             res.counts = [c for i, c in enumerate(ca) if i not in da_] + [c for j, c in enumerate(cb) if j not in db_]
         return res
     if last == "reshape":
+        if getattr(it, "lenient", False) and isinstance(args[0], VOpaque):
+            sizes = _size_list(it, args[1])
+            if any(x == -1 for x in sizes):
+                raise Unmodelled("reshape of an untyped value with an inferred size")
+            it.fresh_n += 1
+            return VTensor(net.atom_tensor(sp, f"untyped#{it.fresh_n}", sizes, tags=[repr(x) for x in sizes]), "dtype")
         return VTensor(net.reshape(sp, args[0].dense(), _size_list(it, args[1])), args[0].dtype)
     if last == "permute":
         if isinstance(args[1], VIndexSeq):
@@ -1061,7 +1128,7 @@ def torch_function(it, dotted, last, args, kwargs, node):
         dim = args[1] if len(args) > 1 else kwargs.get("dim", kwargs.get("axis", VInt(ZERO)))
         return VTensor(net.cat(sp, [x.val for x in items], _int_list(it, dim)[0]), items[0].dtype)
     if last == "diagonal":
-        d = args[0].dense()
+        d = args[0].dense().fresh()      # identifications below must stay local to this use of the operand
         d1 = _int_list(it, kwargs.get("dim1", args[2] if len(args) > 2 else VInt(ZERO)))[0] % d.ndim()
         d2 = _int_list(it, kwargs.get("dim2", args[3] if len(args) > 3 else VInt(ONE)))[0] % d.ndim()
         off = kwargs.get("offset", args[1] if len(args) > 1 else VInt(ZERO))
